@@ -296,6 +296,10 @@ class Interp:
                                 st.add_ge0(l)
                             else:
                                 st.add_ge0(parent.len - o - l)
+                            # tie to the length atom that type invariants of the enclosing struct talk about
+                            la = Lin.atom(reg_atom(("len", ("s", key)), 0, I64MAX))
+                            st.add_ge0(la - l)
+                            st.add_ge0(l - la)
                             return VRegion(parent.origin, parent.off + o, l, False)
                 origin = ("s", key)
                 ln = reg_atom(("len", origin), 0, I64MAX)
@@ -1005,10 +1009,15 @@ class Interp:
                 if a.is_const():
                     return Lin.const(a.c // b.c) if a.c >= 0 else Lin.const(-((-a.c) // b.c))
                 alo, ahi = static_bounds(a)
+                if (alo is None or alo < 0) and st is not None and st.entails(a):
+                    alo = 0
                 if alo is not None and alo >= 0:
                     if all(v % b.c == 0 for v in a.t.values()) and a.c % b.c == 0 and all(v > 0 for v in a.t.values()):
                         return Lin({x: v // b.c for x, v in a.t.items()}, a.c // b.c)
                     at = reg_atom(("div", a.key(), b.c), alo // b.c, None if ahi is None else ahi // b.c)
+                    if st is not None:
+                        st.add_ge0(a - Lin.atom(at).scale(b.c))
+                        st.add_ge0(Lin.atom(at).scale(b.c) + (b.c - 1) - a)
                     return Lin.atom(at)
             return Lin.atom(reg_atom(("divv", a.key(), b.key()), lo_t, hi_t))
         if op == "Rem":
@@ -1240,16 +1249,55 @@ class Interp:
             if op == "BitOr" and self.opts.get("bitor_oblig", True):
                 ma, mb = mask_of_lin(a.lin), mask_of_lin(b.lin)
                 disjoint = ma is not None and mb is not None and (ma & mb) == 0
+                if not disjoint:
+                    # refine the may-be-set masks with the upper bounds the path facts give
+                    ma, mb = self.refined_mask(st, a.lin, ma), self.refined_mask(st, b.lin, mb)
+                    disjoint = ma is not None and mb is not None and (ma & mb) == 0
                 zero = (a.lin.is_const() and a.lin.c == 0) or (b.lin.is_const() and b.lin.c == 0)
+                # `x |= CONST` (flag set in place on a raw byte) forces bits on purpose
+                inplace = False
+                dp = getattr(self, "_cur_dest", None)
+                if dp is not None and b.lin.is_const():
+                    ap = rv["a"].get("c") or rv["a"].get("m")
+                    inplace = ap is not None and ap.get("l") == dp.get("l") and ap.get("p") == dp.get("p")
+                if disjoint and not zero:
+                    self._bitor_linear = True
+                if inplace:
+                    zero = True
                 self.oblige(st, "bitor", "operands of | have disjoint bits", disjoint or zero, self.cur_site,
                             self.cur_sp, "masks %s %s" % (hex(ma) if ma is not None else "?",
                                                           hex(mb) if mb is not None else "?"), expn=self.cur_expn)
+            if op == "BitOr" and getattr(self, "_bitor_linear", False):
+                self._bitor_linear = False
+                return VInt(a.lin + b.lin)
+            self._bitor_linear = False
             r = self.int_binop(st, op, a.lin, b.lin, ty)
             self.add_def_facts(st, r)
             return VInt(r)
         if op == "Offset" and isinstance(a, VPtr) and isinstance(b, VInt):
             return self.ptr_add(st, a, b.lin)
         return self.materialize(st, dest_ty, ("bin", fresh_id()))
+
+    def refined_mask(self, st, lin, m0):
+        from .lin import sup_of
+        if lin.is_const():
+            return m0
+        if lin.c != 0 or len(lin.t) != 1:
+            s_ = sup_of(st.facts, lin)
+            lo, _ = static_bounds(lin)
+            if s_ is not None and lo is not None and lo >= 0:
+                m = (1 << s_.bit_length()) - 1
+                return m if m0 is None else (m & m0)
+            return m0
+        (a, k), = lin.t.items()
+        if k <= 0 or (k & (k - 1)) != 0:
+            return m0
+        s_ = sup_of(st.facts, Lin.atom(a))
+        lo = ATOM_LO.get(a)
+        if s_ is None or lo is None or lo < 0:
+            return m0
+        m = ((1 << s_.bit_length()) - 1) << (k.bit_length() - 1)
+        return m if m0 is None else (m & m0)
 
     def add_def_facts(self, st, lin):
         """definitional facts of freshly built non-linear atoms (valid in every state)"""
@@ -1385,8 +1433,18 @@ class Interp:
         return self.materialize(st, t, ("cast", fresh_id()))
 
     def note_cast(self, st, fr, v, src_ty, dst_ty, inrange):
-        self.sink.events.append(("cast", fr.body["path"], self.cur_site, self.cur_sp, src_ty, dst_ty, inrange,
-                                 show_lin(v.lin), self.ctx(st), self.cur_expn))
+        if not self.opts.get("cast_oblig", True):
+            return
+        detail = ""
+        if not inrange:
+            detail = "operand %s not proved inside %s; facts: %s" % (show_lin(v.lin), dst_ty, self.show_facts(st, v.lin))
+        triv = False
+        slo, shi = static_bounds(v.lin)
+        if slo is not None and shi is not None:
+            lo, hi = INT_TYPES[dst_ty]
+            triv = slo >= lo and shi <= hi
+        self.oblige(st, "cast", "narrowing cast %s -> %s is lossless" % (src_ty, dst_ty), inrange, self.cur_site,
+                    self.cur_sp, detail, triv, expn=self.cur_expn)
 
     def ptr_add(self, st, p, n, what="ptr.add"):
         noff = p.off + n
@@ -1489,7 +1547,9 @@ class Interp:
         if k == "assign":
             place = s["place"]
             dty = self.place_type(fr, place)
+            self._cur_dest = place
             v = self.eval_rvalue(st, fr, s["rvalue"], dty)
+            self._cur_dest = None
             cur = self.resolve_place(st, fr, place)
             if cur[0] == "ptrbyte":
                 p = cur[1]
